@@ -50,9 +50,34 @@ def reader_grammar(cx):
     join = max(counts, key=counts.get)
     grammar = {}
     calls = {c.bb: c for c in fn.calls()}
+    # fixed-width reads, independent of how the bytes are fetched (`copy_nonoverlapping`, `first_chunk::<N>`, ...): every read
+    # macro advances the cursor by the number of bytes it consumed -- `self.ip += n` shows up as an overflow-checked
+    # addition of a constant to `self.ip` with the macro's provenance
+    from . import arith as _arith
+    ip_adv = {}
+    for bb, t in _arith._asserts(fn):
+        if t[1] != "Overflow:Add" or len(t[5]) != 2:
+            continue
+        m = set(loc_macros(t[6]))
+        if not (m & set(READ_MACROS)) or (m & {"get_var_u32", "get_var_u32_with_first_byte"}):
+            continue
+        pls = [op_place(o) for o in t[5]]
+        ks = [op_int(o) for o in t[5]]
+        if any(pl is not None and place_fields(pl)[-1:] == ["ip"] for pl in pls) and any(k is not None for k in ks):
+            ip_adv[bb] = next(k for k in ks if k is not None)
+    use_ip_adv = len(ip_adv) >= 20
     for name, tb in targets.items():
         reg = regions[name]
         toks = []
+        if use_ip_adv:
+            for bb in reg:
+                if bb in ip_adv:
+                    optional = False
+                    if tb != bb:
+                        p2 = cfg.find_path(tb, lambda b: b == join, {bb} | (set(range(cfg.n)) - reg - {join}),
+                                           include_src_succs=False)
+                        optional = p2 is not None
+                    toks.append((len(cfg.dominators().get(bb, ())), bb, ("F", ip_adv[bb], optional)))
         for bb in reg:
             c = calls.get(bb)
             if c is None:
@@ -62,6 +87,8 @@ def reader_grammar(cx):
                 continue
             p = c.pretty or ""
             kind = None
+            if use_ip_adv and not (m & {"get_var_u32", "get_var_u32_with_first_byte"}):
+                continue            # fixed-width reads were taken from the cursor advances above
             if p.endswith("copy_nonoverlapping") or c.short.endswith("copy_nonoverlapping"):
                 n = op_int(c.args[2]) if len(c.args) > 2 else None
                 if n is None and len(c.args) > 2:
